@@ -47,6 +47,9 @@ def _spec(ct, nrk, key_prefix="ck", strict=True):
     for j in range(nv):
         cols[_vname(j)] = [row[j] for row in ct["cells"]]
     control = pandas.DataFrame(cols)
+    if _VN["desc"] and control.shape[0] >= 2:
+        # a legal control table whose index is not 0..n-1 in order (e.g. after sort_values): the index carries no meaning
+        control.index = list(range(control.shape[0]))[::-1]
     return RecordSpecification(control, record_keys=["id%d" % (i + 1) for i in range(nrk)],
                                control_table_keys=["%s%d" % (key_prefix, j + 1) for j in range(nk)], strict=strict)
 
@@ -253,7 +256,7 @@ def rec_cases(tr, tier, maxrecs=None):
         if r.violated:
             viol.append(r)
         lines += r.lines
-    return parse_hist_cases(lines, limit=(1200 if quick else 8000)), viol
+    return parse_hist_cases(lines, limit=(1200 if quick else 4000)), viol
 
 
 def check_C17(tier, replay=None):
